@@ -38,7 +38,8 @@ type frame struct {
 	fn        *ssa.Function
 	block     *ssa.BasicBlock
 	prevBlock *ssa.BasicBlock
-	env       map[ssa.Value]Value
+	env       []Value
+	info      *fnInfo
 	locals    []Value
 	defers    *deferred
 	result    Value
@@ -60,7 +61,8 @@ func (fr *frame) get(key ssa.Value) Value {
 	case *ssa.Global:
 		return fr.st.globalAddr(key)
 	}
-	if r, ok := fr.env[key]; ok {
+	if i, ok := fr.info.idx[key]; ok {
+		r := fr.env[i]
 		if p, isP := r.(Poison); isP {
 			panic(unsupported("use of value from unsupported initialiser: " + p.Why))
 		}
@@ -70,6 +72,18 @@ func (fr *frame) get(key ssa.Value) Value {
 }
 
 func (st *State) constValue(c *ssa.Const) Value {
+	if v, ok := st.eng.constVal.Load(c); ok {
+		return v
+	}
+	v := st.constValue1(c)
+	switch v.(type) {
+	case *Term, string:
+		st.eng.constVal.Store(c, v)
+	}
+	return v
+}
+
+func (st *State) constValue1(c *ssa.Const) Value {
 	if c.Value == nil {
 		return zero(c.Type())
 	}
@@ -176,23 +190,47 @@ func (st *State) callFunc(caller *frame, pos token.Pos, fnv Value, args []Value)
 	panic(fmt.Sprintf("cannot call %T", fnv))
 }
 
+type fnMeta struct {
+	name    string
+	intr    intrinsic
+	stub    Value
+	thunder bool
+	native  bool
+}
+
+func (eng *Engine) metaOf(fn *ssa.Function) *fnMeta {
+	if v, ok := eng.fnMetas.Load(fn); ok {
+		return v.(*fnMeta)
+	}
+	m := &fnMeta{name: fn.String()}
+	if stub, ok := eng.stubs[m.name]; ok {
+		m.stub = stub
+	}
+	if intr, ok := intrinsics[m.name]; ok {
+		m.intr = intr
+	} else if fn.Pkg != nil || fn.Origin() != nil {
+		m.intr = pkgIntrinsic(fn)
+	}
+	if fn.Pkg != nil {
+		m.thunder = strings.HasPrefix(fn.Pkg.Pkg.Path(), "github.com/samsarahq/thunder")
+		m.native = isNativePkg(fn.Pkg.Pkg.Path())
+	}
+	eng.fnMetas.Store(fn, m)
+	return m
+}
+
 func (st *State) callSSA(caller *frame, pos token.Pos, fn *ssa.Function, args []Value, env []Value) Value {
-	name := fn.String()
+	meta := st.eng.metaOf(fn)
+	name := meta.name
 	if st.eng.trace {
 		fmt.Printf("%*scall %s\n", st.depth(caller), "", name)
 	}
-	if stub, ok := st.eng.stubs[name]; ok {
-		return st.callFunc(caller, pos, stub, args)
+	if meta.stub != nil {
+		return st.callFunc(caller, pos, meta.stub, args)
 	}
-	if intr, ok := intrinsics[name]; ok {
-		st.intrinsicHit(name)
-		return intr(st, caller, fn, args)
-	}
-	if fn.Pkg != nil || fn.Origin() != nil {
-		if intr := pkgIntrinsic(fn); intr != nil {
-			st.intrinsicHit(name)
-			return intr(st, caller, fn, args)
-		}
+	if meta.intr != nil {
+		st.intrHits[name] = true
+		return meta.intr(st, caller, fn, args)
 	}
 	if fn.Blocks == nil {
 		if st.initDepth > 0 {
@@ -200,13 +238,15 @@ func (st *State) callSSA(caller *frame, pos token.Pos, fn *ssa.Function, args []
 		}
 		panic(unsupported("no body for function " + name))
 	}
-	if st.initDepth > 0 && st.eng.poisonInInit(fn) {
+	if st.initDepth > 0 && meta.native {
 		return Poison{Why: "call of unsupported function " + name + " in initialiser"}
 	}
 	if fn.Pkg != nil && fn.Synthetic == "" {
 		st.ensureInit(fn.Pkg)
 	}
-	st.noteFunc(fn)
+	if meta.thunder {
+		st.funcs[name] = true
+	}
 	fr := &frame{st: st, caller: caller, fn: fn, callPos: pos}
 	if caller != nil {
 		fr.th = caller.th
@@ -220,18 +260,19 @@ func (st *State) callSSA(caller *frame, pos token.Pos, fn *ssa.Function, args []
 			panic(fuelErr{"call depth exceeded in " + name})
 		}
 	}
-	fr.env = make(map[ssa.Value]Value, 16)
+	fr.info = st.eng.fnInfoOf(fn)
+	fr.env = make([]Value, fr.info.n)
 	fr.block = fn.Blocks[0]
 	fr.locals = make([]Value, len(fn.Locals))
 	for i, l := range fn.Locals {
 		fr.locals[i] = zero(l.Type().(*types.Pointer).Elem())
-		fr.env[l] = &fr.locals[i]
+		fr.set(l, &fr.locals[i])
 	}
 	for i, p := range fn.Params {
-		fr.env[p] = args[i]
+		fr.set(p, args[i])
 	}
 	for i, fv := range fn.FreeVars {
-		fr.env[fv] = env[i]
+		fr.set(fv, env[i])
 	}
 	saved := fr.th.top
 	fr.th.top = fr
@@ -337,7 +378,7 @@ func (st *State) doPhis(fr *frame) {
 		vals = append(vals, fr.get(phi.Edges[idx]))
 	}
 	for i, phi := range phis {
-		fr.env[phi] = vals[i]
+		fr.set(phi, vals[i])
 	}
 }
 
@@ -369,6 +410,46 @@ func (fr *frame) runDefer(d *deferred) {
 	ok = true
 }
 
+type fnInfo struct {
+	idx map[ssa.Value]int
+	n   int
+}
+
+func (eng *Engine) fnInfoOf(fn *ssa.Function) *fnInfo {
+	if v, ok := eng.fnInfos.Load(fn); ok {
+		return v.(*fnInfo)
+	}
+	info := &fnInfo{idx: map[ssa.Value]int{}}
+	add := func(v ssa.Value) {
+		if _, ok := info.idx[v]; !ok {
+			info.idx[v] = info.n
+			info.n++
+		}
+	}
+	for _, p := range fn.Params {
+		add(p)
+	}
+	for _, fv := range fn.FreeVars {
+		add(fv)
+	}
+	for _, l := range fn.Locals {
+		add(l)
+	}
+	for _, b := range fn.Blocks {
+		for _, instr := range b.Instrs {
+			if v, ok := instr.(ssa.Value); ok {
+				add(v)
+			}
+		}
+	}
+	eng.fnInfos.Store(fn, info)
+	return info
+}
+
+func (fr *frame) set(key ssa.Value, v Value) {
+	fr.env[fr.info.idx[key]] = v
+}
+
 type continuation int
 
 const (
@@ -381,28 +462,28 @@ func (st *State) visitInstr(fr *frame, instr ssa.Instruction) continuation {
 	switch instr := instr.(type) {
 	case *ssa.DebugRef:
 	case *ssa.UnOp:
-		fr.env[instr] = st.unop(fr, instr, fr.get(instr.X))
+		fr.set(instr, st.unop(fr, instr, fr.get(instr.X)))
 	case *ssa.BinOp:
-		fr.env[instr] = st.binop(instr.Op, instr.X.Type(), fr.get(instr.X), fr.get(instr.Y), instr.Y.Type())
+		fr.set(instr, st.binop(instr.Op, instr.X.Type(), fr.get(instr.X), fr.get(instr.Y), instr.Y.Type()))
 	case *ssa.Call:
 		fn, args := st.prepareCall(fr, &instr.Call)
-		fr.env[instr] = st.callFunc(fr, instr.Pos(), fn, args)
+		fr.set(instr, st.callFunc(fr, instr.Pos(), fn, args))
 	case *ssa.ChangeInterface:
-		fr.env[instr] = fr.get(instr.X)
+		fr.set(instr, fr.get(instr.X))
 	case *ssa.ChangeType:
-		fr.env[instr] = fr.get(instr.X)
+		fr.set(instr, fr.get(instr.X))
 	case *ssa.Convert:
-		fr.env[instr] = st.conv(instr.Type(), instr.X.Type(), fr.get(instr.X))
+		fr.set(instr, st.conv(instr.Type(), instr.X.Type(), fr.get(instr.X)))
 	case *ssa.MultiConvert:
-		fr.env[instr] = st.conv(instr.Type(), instr.X.Type(), fr.get(instr.X))
+		fr.set(instr, st.conv(instr.Type(), instr.X.Type(), fr.get(instr.X)))
 	case *ssa.SliceToArrayPointer:
 		panic(unsupported("SliceToArrayPointer"))
 	case *ssa.MakeInterface:
-		fr.env[instr] = Iface{T: instr.X.Type(), V: fr.get(instr.X)}
+		fr.set(instr, Iface{T: instr.X.Type(), V: fr.get(instr.X)})
 	case *ssa.Extract:
-		fr.env[instr] = fr.get(instr.Tuple).(Tuple)[instr.Index]
+		fr.set(instr, fr.get(instr.Tuple).(Tuple)[instr.Index])
 	case *ssa.Slice:
-		fr.env[instr] = st.sliceOp(fr, instr)
+		fr.set(instr, st.sliceOp(fr, instr))
 	case *ssa.Return:
 		switch len(instr.Results) {
 		case 0:
@@ -451,14 +532,14 @@ func (st *State) visitInstr(fr *frame, instr ssa.Instruction) continuation {
 		st.goStmt(fr, instr, fn, args)
 	case *ssa.MakeChan:
 		n := st.concInt(fr.get(instr.Size).(*Term), "chan size")
-		fr.env[instr] = st.newChan(int(n), instr.Type().Underlying().(*types.Chan).Elem())
+		fr.set(instr, st.newChan(int(n), instr.Type().Underlying().(*types.Chan).Elem()))
 	case *ssa.Alloc:
 		var addr *Value
 		if instr.Heap {
 			addr = new(Value)
-			fr.env[instr] = addr
+			fr.set(instr, addr)
 		} else {
-			addr = fr.env[instr].(*Value)
+			addr = fr.env[fr.info.idx[instr]].(*Value)
 		}
 		*addr = zero(instr.Type().Underlying().(*types.Pointer).Elem())
 	case *ssa.MakeSlice:
@@ -472,35 +553,35 @@ func (st *State) visitInstr(fr *frame, instr ssa.Instruction) continuation {
 		for i := range a {
 			a[i] = zero(et)
 		}
-		fr.env[instr] = Slice{A: a[:ln]}
+		fr.set(instr, Slice{A: a[:ln]})
 	case *ssa.MakeMap:
-		fr.env[instr] = newMap(instr.Type().Underlying().(*types.Map))
+		fr.set(instr, newMap(instr.Type().Underlying().(*types.Map)))
 	case *ssa.Range:
-		fr.env[instr] = st.rangeIter(fr.get(instr.X), instr.X.Type())
+		fr.set(instr, st.rangeIter(fr.get(instr.X), instr.X.Type()))
 	case *ssa.Next:
-		fr.env[instr] = fr.get(instr.Iter).(iterator).next(st)
+		fr.set(instr, fr.get(instr.Iter).(iterator).next(st))
 	case *ssa.FieldAddr:
 		p := fr.get(instr.X).(*Value)
 		if p == nil {
 			panic(goPanic{mkRuntimeError("invalid memory address or nil pointer dereference")})
 		}
-		fr.env[instr] = &(*p).(Struct)[instr.Field]
+		fr.set(instr, &(*p).(Struct)[instr.Field])
 	case *ssa.Field:
-		fr.env[instr] = copyVal(fr.get(instr.X).(Struct)[instr.Field])
+		fr.set(instr, copyVal(fr.get(instr.X).(Struct)[instr.Field]))
 	case *ssa.IndexAddr:
 		x := fr.get(instr.X)
 		idx := fr.get(instr.Index).(*Term)
 		switch x := x.(type) {
 		case Slice:
 			i := st.index(idx, len(x.A), isSigned(instr.Index.Type()))
-			fr.env[instr] = &x.A[i]
+			fr.set(instr, &x.A[i])
 		case *Value:
 			if x == nil {
 				panic(goPanic{mkRuntimeError("invalid memory address or nil pointer dereference")})
 			}
 			a := (*x).(Array)
 			i := st.index(idx, len(a), isSigned(instr.Index.Type()))
-			fr.env[instr] = &a[i]
+			fr.set(instr, &a[i])
 		default:
 			panic(fmt.Sprintf("IndexAddr on %T", x))
 		}
@@ -510,35 +591,35 @@ func (st *State) visitInstr(fr *frame, instr ssa.Instruction) continuation {
 		switch x := x.(type) {
 		case Array:
 			i := st.index(idx, len(x), isSigned(instr.Index.Type()))
-			fr.env[instr] = copyVal(x[i])
+			fr.set(instr, copyVal(x[i]))
 		case string:
 			i := st.index(idx, len(x), isSigned(instr.Index.Type()))
-			fr.env[instr] = BVC(8, uint64(x[i]))
+			fr.set(instr, BVC(8, uint64(x[i])))
 		case *SymStr:
 			s := st.concStr(x)
 			i := st.index(idx, len(s), isSigned(instr.Index.Type()))
-			fr.env[instr] = BVC(8, uint64(s[i]))
+			fr.set(instr, BVC(8, uint64(s[i])))
 		default:
 			panic(fmt.Sprintf("Index on %T", x))
 		}
 	case *ssa.Lookup:
-		fr.env[instr] = st.lookup(instr, fr.get(instr.X), fr.get(instr.Index))
+		fr.set(instr, st.lookup(instr, fr.get(instr.X), fr.get(instr.Index)))
 	case *ssa.MapUpdate:
 		m := fr.get(instr.Map).(*Map)
 		st.noteAccess(m, true)
 		m.set(st, fr.get(instr.Key), copyVal(fr.get(instr.Value)))
 	case *ssa.TypeAssert:
-		fr.env[instr] = st.typeAssert(instr, fr.get(instr.X).(Iface))
+		fr.set(instr, st.typeAssert(instr, fr.get(instr.X).(Iface)))
 	case *ssa.MakeClosure:
 		var bindings []Value
 		for _, b := range instr.Bindings {
 			bindings = append(bindings, fr.get(b))
 		}
-		fr.env[instr] = &Closure{instr.Fn.(*ssa.Function), bindings}
+		fr.set(instr, &Closure{instr.Fn.(*ssa.Function), bindings})
 	case *ssa.Phi:
 		// handled at block entry; first block cannot have phis
 	case *ssa.Select:
-		fr.env[instr] = st.selectOp(fr, instr)
+		fr.set(instr, st.selectOp(fr, instr))
 	default:
 		panic(unsupported(fmt.Sprintf("instruction %T", instr)))
 	}
